@@ -458,6 +458,46 @@ def rule_sort_guard(ctx, prop, must_block=("Skip", "NotInRange")):
                                                 "statements outside the formatting range are reordered" if v == "NotInRange"
                                                 else "the members were never asked"), f.loc(), cfg)
         rep.floor("paths reaching the require sort", n, 1, cfg)
+        # "every member": the statements shown to should_format_node are the items of an iterator over the whole group
+        WHOLE = re.compile(r"IntoIterator>::into_iter$|<impl \[T\]>::iter$|Vec::<.*>::iter$|::iter$|Iterator>?::(map|by_ref|enumerate|copied|cloned|inspect)$|"
+                           r"Deref>::deref$|iter::Iterator::(map|by_ref|enumerate|copied|cloned|inspect)$")
+        for b in sfnb:
+            t = f.blocks[b]["term"]
+            if len(t["args"]) < 2:
+                continue
+            from paths import access_path
+            try:
+                root, steps = access_path(f, t["args"][1])
+            except Exception:
+                root, steps = (None,), ()
+            if root[0] != "call" or not re.search(r"Iterator>?::next$", callee(f.blocks[root[1]]["term"])):
+                rep.note(f"@{cfg}: should_format_node argument is not a loop item (member-walk clause not evaluated)")
+                continue
+            cur = f.blocks[root[1]]["term"]["args"][0]
+            chain, okw, why = [], True, ""
+            for _ in range(12):
+                rs = [r for r in provenance(f, cur, through=None, into_aggs=False)]
+                calls = [r for r in rs if r[0] == "call"]
+                if len(calls) != 1 or len(rs) != 1:
+                    if any(r[0] == "agg" for r in rs):
+                        okw, why = False, "a hand-built collection"
+                    break
+                t2 = f.blocks[calls[0][2]]["term"]
+                c2 = callee(t2)
+                chain.append(c2.split("::")[-1])
+                if re.search(r"Iterator>?::next$", c2):
+                    break       # the group itself: the item of the loop over the partitions
+                if not WHOLE.search(c2) or not t2["args"]:
+                    okw, why = False, c2.split("::<")[0].split("::")[-1]
+                    break
+                cur = t2["args"][0]
+            rep.inst(f"{f.key} the member walk iterates the whole group", {"adaptors": chain}, cfg, ok=okw)
+            if not okw:
+                rep.violation(f"{f.key} member-walk-over-part-of-the-group via={why}",
+                              f"the loop that asks should_format_node about the members of a require group iterates {why} "
+                              f"(adaptor chain {chain}) instead of every statement of the group: a member that is not visited can "
+                              f"be ignored (`--[[ stylua: ignore ]] local a = ..` on its own line inside the group) or out of "
+                              f"range and is sorted - moved, and separated from its directive - all the same", f.loc(t["sp"]), cfg)
     return rep
 
 
@@ -647,4 +687,66 @@ def rule_sort_emit(ctx, prop):
                               f"such a statement is not seen by the sort pass, so later require groups inside the region are "
                               f"reordered (or groups after the region stay unsorted)", f.loc(t["sp"]), cfg)
         rep.floor("statement emit sites in sort_requires", n, 2, cfg)
+        # one state for the whole block: what any check_toggle_formatting call of the walk produces reaches the argument of every
+        # other one (through the loop-carried Context) - a walk over a private copy forgets its toggles when it ends
+        tsites = [(b, t) for b, t in f.calls() if callee(t) == TOGGLE and part_head in dom.get(b, ())]
+        tblocks = {b for b, _ in tsites}
+        def _ref_targets(r, depth=0):
+            """locals a reference held in r may point to (through copies of the reference)"""
+            out = set()
+            if depth > 6:
+                return out
+            for bi_, si_, s_ in f.defs().get(r, []):
+                if si_ == "term":
+                    continue
+                rv_ = s_["rv"]
+                if rv_["k"] in ("ref", "rawptr"):
+                    if rv_["p"].get("p") in (None, []):
+                        out.add(rv_["p"]["l"])
+                    elif rv_["p"].get("p") == ["*"]:
+                        out |= _ref_targets(rv_["p"]["l"], depth + 1)      # reborrow
+                elif rv_["k"] in ("use", "cast") and not is_const(rv_["o"]) and not op_place(rv_["o"]).get("p"):
+                    out |= _ref_targets(op_place(rv_["o"])["l"], depth + 1)
+            return out
+
+        def _fed(start):
+            """toggle calls whose Context argument can hold the value produced at `start` (copies, and stores through `&mut ctx`)"""
+            reached, seen_, work_ = set(), set(), [start]
+            while work_:
+                l_ = work_.pop()
+                if l_ in seen_:
+                    continue
+                seen_.add(l_)
+                for u in forward_uses(f, l_):
+                    if u[0] == "call" and callee(u[2]) == TOGGLE and u[3] == 0:
+                        reached.add(u[1])
+                    elif u[0] == "field" and u[2]["dst"].get("p") == ["*"]:
+                        work_.extend(_ref_targets(u[2]["dst"]["l"]))
+                # a call result written through a reference: `(*r) = check_toggle_formatting(..)`
+            return reached
+        feeds = {}
+        for b, t in tsites:
+            d = t.get("dst")
+            if d is None:
+                feeds[b] = set()
+            elif d.get("p") == ["*"]:
+                acc = set()
+                for x in _ref_targets(d["l"]):
+                    acc |= _fed(x)
+                feeds[b] = acc
+            else:
+                feeds[b] = _fed(d["l"])
+        for b, t in tsites:
+            got = {a for a in tblocks if b in feeds.get(a, ())}
+            got |= {r[2] for r in provenance(f, t["args"][0]) if r[0] == "call" and r[1] == TOGGLE}
+            missing = tblocks - got
+            okm = not missing
+            rep.inst(f"{f.key} toggle call #{sorted(tblocks).index(b)} starts from the state of every toggle call of the walk",
+                     {"fed_by": len(got), "toggle_calls": len(tblocks)}, cfg, ok=okm)
+            if not okm:
+                rep.violation(f"{f.key} toggle-state-forked fed-by={len(got)}-of-{len(tblocks)}",
+                              f"sort_requires has {len(tblocks)} check_toggle_formatting calls in its walk over the partitions, but the "
+                              f"Context given to one of them is fed by only {len(got)} of them: some statements are shown to a private "
+                              f"copy of the state, so an `-- stylua: ignore start` / `ignore end` seen there is forgotten for the "
+                              f"following groups (statements inside an ignored region are reordered)", f.loc(t["sp"]), cfg)
     return rep
